@@ -446,7 +446,7 @@ type emptyCase struct {
 	Ops    []string `json:"ops"`
 }
 
-var emptyKinds = []string{"lseq", "lqseq", "aseq", "aqseq", "multi-no-rows", "multi-empty-rows", "multiq-empty-rows", "set-no-rows", "set-empty-rows"}
+var emptyKinds = []string{"lseq-emptied", "lqseq-emptied", "lseq", "lqseq", "aseq", "aqseq", "multi-no-rows", "multi-empty-rows", "multiq-empty-rows", "set-no-rows", "set-empty-rows"}
 var emptyOps = [][]string{{"revcomp"}, {"reverse"}, {"clone"}, {"revcomp", "revcomp"}, {"reverse", "reverse"}, {"clone", "revcomp"}, {"revcomp", "clone"}, {"reverse", "revcomp"}}
 
 type emptyObj interface {
@@ -458,6 +458,10 @@ func checkEmpty(c emptyCase) (f *vlib.Failure) {
 	a := sm.Alpha(c.Alpha)
 	defer func() {
 		if r := recover(); r != nil {
+			if msg, ok := r.(string); ok && strings.HasPrefix(msg, "clone of an emptied") {
+				f = vlib.Failf("clone-not-independent", "%s over %s, ops %v: %s", c.Kind, c.Alpha, c.Ops, msg)
+				return
+			}
 			f = vlib.Failf("panic-on-empty", "%s over %s, ops %v: %v", c.Kind, c.Alpha, c.Ops, r)
 		}
 	}()
@@ -465,7 +469,49 @@ func checkEmpty(c emptyCase) (f *vlib.Failure) {
 	var strand func() seq.Strand
 	var length func() int
 	var clone func() emptyObj
+	pl := sm.PairedLetters(c.Alpha)
 	switch c.Kind {
+	case "lseq-emptied", "lqseq-emptied":
+		// a sequence that held letters and was cut back to none: length 0 with spare capacity. A clone
+		// and the original then grow independently.
+		fill := alphabet.Letters{alphabet.Letter(pl[0]), alphabet.Letter(pl[1]), alphabet.Letter(pl[0]), alphabet.Letter(pl[1]), alphabet.Letter(pl[0]), alphabet.Letter(pl[1])}
+		x, y := alphabet.Letter(pl[0]), alphabet.Letter(pl[1])
+		if c.Kind == "lseq-emptied" {
+			s := linear.NewSeq("e", fill, a)
+			s.Seq = s.Seq[:0]
+			s.Strand = seq.Strand(c.Strand)
+			obj, strand, length = s, func() seq.Strand { return s.Strand }, s.Len
+			clone = func() emptyObj {
+				cl := s.Clone().(*linear.Seq)
+				s.AppendLetters(x, x, y)
+				cl.AppendLetters(y, y, x)
+				if got, got2 := s.Seq.String(), cl.Seq.String(); got != string([]byte{byte(x), byte(x), byte(y)}) || got2 != string([]byte{byte(y), byte(y), byte(x)}) {
+					panic(fmt.Sprintf("clone of an emptied sequence is not independent: after appending %c%c%c to the original and %c%c%c to the clone they read %q and %q", x, x, y, y, y, x, got, got2))
+				}
+				s.Seq = s.Seq[:0]
+				cl.Seq = cl.Seq[:0]
+				return cl
+			}
+		} else {
+			s := linear.NewQSeq("e", nil, a, alphabet.Sanger)
+			for _, l := range fill {
+				s.Seq = append(s.Seq, alphabet.QLetter{L: l, Q: 7})
+			}
+			s.Seq = s.Seq[:0]
+			s.Strand = seq.Strand(c.Strand)
+			obj, strand, length = s, func() seq.Strand { return s.Strand }, s.Len
+			clone = func() emptyObj {
+				cl := s.Clone().(*linear.QSeq)
+				s.AppendQLetters(alphabet.QLetter{L: x, Q: 11}, alphabet.QLetter{L: y, Q: 12})
+				cl.AppendQLetters(alphabet.QLetter{L: y, Q: 21}, alphabet.QLetter{L: x, Q: 22})
+				if got, got2 := fmt.Sprint(s.Seq), fmt.Sprint(cl.Seq); got != fmt.Sprint(alphabet.QLetters{{L: x, Q: 11}, {L: y, Q: 12}}) || got2 != fmt.Sprint(alphabet.QLetters{{L: y, Q: 21}, {L: x, Q: 22}}) {
+					panic(fmt.Sprintf("clone of an emptied quality sequence is not independent: after appending to both copies they read %v and %v", got, got2))
+				}
+				s.Seq = s.Seq[:0]
+				cl.Seq = cl.Seq[:0]
+				return cl
+			}
+		}
 	case "lseq":
 		s := linear.NewSeq("e", nil, a)
 		s.Strand = seq.Strand(c.Strand)
@@ -558,4 +604,226 @@ func TestEmpty(t *testing.T) {
 		},
 		Check:   checkEmpty,
 		Classes: func(c emptyCase) []string { return []string{"empty-" + c.Kind, vlib.NT} }})
+}
+
+// ---- a row-stored alignment whose rows are the rows of a column-stored alignment that itself carries an offset ----
+//
+// The rows of an alignment.Seq / QSeq are seq.Sequence values and can be handed to multi.NewMulti. The
+// row-stored alignment then mirrors them through their own Start/End/SetOffset. Letters are read from the
+// column store directly (column-stored alignments index their columns from 0 whatever their offset, so the
+// generic position-based observation does not apply here).
+
+type viewCase struct {
+	Alpha   string   `json:"alpha"`
+	Quality bool     `json:"quality"`
+	Cols    int      `json:"cols"`
+	Rows    []sm.Row `json:"rows"`     // rows of the column-stored alignment: letters (all Cols long), qualities, own offset
+	AOffset int      `json:"a_offset"` // offset of the column-stored alignment
+	Linear  []sm.Row `json:"linear"`   // further ordinary rows
+	Ops     []string `json:"ops"`      // revcomp / reverse
+}
+
+func checkViews(c viewCase) *vlib.Failure {
+	alpha := sm.Alpha(c.Alpha)
+	nr := len(c.Rows)
+	var rows []seq.Sequence
+	var raw func(r int) (string, []int)
+	ids := make([]string, nr)
+	for i := range ids {
+		ids[i] = fmt.Sprintf("r%d", i)
+	}
+	if c.Quality {
+		cols := make([][]alphabet.QLetter, c.Cols)
+		for j := range cols {
+			cols[j] = make([]alphabet.QLetter, nr)
+			for i, r := range c.Rows {
+				cols[j][i] = alphabet.QLetter{L: alphabet.Letter(r.L[j]), Q: alphabet.Qphred(r.Q[j])}
+			}
+		}
+		a, err := alignment.NewQSeq("a", ids, cols, alpha, alphabet.Sanger, seq.DefaultQConsensus)
+		if err != nil {
+			return vlib.Failf("setup", "NewQSeq: %v", err)
+		}
+		a.SetOffset(c.AOffset)
+		for i, r := range c.Rows {
+			a.Row(i).SetOffset(r.Offset)
+			rows = append(rows, a.Row(i))
+		}
+		raw = func(r int) (string, []int) {
+			var b []byte
+			var q []int
+			for _, col := range a.Seq {
+				b = append(b, byte(col[r].L))
+				q = append(q, int(col[r].Q))
+			}
+			return string(b), q
+		}
+	} else {
+		cols := make([][]alphabet.Letter, c.Cols)
+		for j := range cols {
+			cols[j] = make([]alphabet.Letter, nr)
+			for i, r := range c.Rows {
+				cols[j][i] = alphabet.Letter(r.L[j])
+			}
+		}
+		a, err := alignment.NewSeq("a", ids, cols, alpha, seq.DefaultConsensus)
+		if err != nil {
+			return vlib.Failf("setup", "NewSeq: %v", err)
+		}
+		a.SetOffset(c.AOffset)
+		for i, r := range c.Rows {
+			a.Row(i).SetOffset(r.Offset)
+			rows = append(rows, a.Row(i))
+		}
+		raw = func(r int) (string, []int) {
+			var b []byte
+			for _, col := range a.Seq {
+				b = append(b, byte(col[r]))
+			}
+			return string(b), nil
+		}
+	}
+	var lins []*linear.Seq
+	for i, r := range c.Linear {
+		l := linear.NewSeq(fmt.Sprintf("l%d", i), alphabet.BytesToLetters([]byte(r.L)), alpha)
+		l.SetOffset(r.Offset)
+		lins = append(lins, l)
+		rows = append(rows, l)
+	}
+	m, err := multi.NewMulti("m", rows, seq.DefaultConsensus)
+	if err != nil {
+		return vlib.Failf("setup", "NewMulti: %v", err)
+	}
+	type span struct{ s, e int }
+	spans := func() []span {
+		out := make([]span, len(rows))
+		for i, r := range rows {
+			out[i] = span{r.Start(), r.End()}
+		}
+		return out
+	}
+	letters := func() ([]string, [][]int) {
+		var ls []string
+		var qs [][]int
+		for i := 0; i < nr; i++ {
+			l, q := raw(i)
+			ls, qs = append(ls, l), append(qs, q)
+		}
+		for _, l := range lins {
+			ls, qs = append(ls, l.Seq.String()), append(qs, nil)
+		}
+		return ls, qs
+	}
+	desc := fmt.Sprintf("multi over the %d rows of a column-stored alignment (quality=%v, %d columns, offset %d) and %d ordinary rows over %s", nr, c.Quality, c.Cols, c.AOffset, len(lins), c.Alpha)
+	for oi, o := range c.Ops {
+		before := spans()
+		bl, bq := letters()
+		lo, hi := m.Start(), m.End()
+		for i, sp := range before {
+			if sp.e-sp.s != rows[i].Len() {
+				return vlib.Failf("view-coordinates", "%s: row %d reports [%d,%d) and Len() %d", desc, i, sp.s, sp.e, rows[i].Len())
+			}
+		}
+		apply := m.RevComp
+		if o == "reverse" {
+			apply = m.Reverse
+		}
+		apply()
+		if o == "revcomp" {
+			// every row mirrored about the span; the span itself does not move
+			for i, sp := range spans() {
+				if want := (span{lo + hi - before[i].e, lo + hi - before[i].s}); sp != want {
+					return vlib.Failf("view-revcomp-coordinates", "%s: op %d: row %d covers [%d,%d) after RevComp, its mirror image about [%d,%d) is [%d,%d) (it covered [%d,%d))", desc, oi, i, sp.s, sp.e, lo, hi, want.s, want.e, before[i].s, before[i].e)
+				}
+			}
+			if m.Start() != lo || m.End() != hi {
+				return vlib.Failf("view-revcomp-coordinates", "%s: op %d: RevComp moved the span from [%d,%d) to [%d,%d)", desc, oi, lo, hi, m.Start(), m.End())
+			}
+			al, aq := letters()
+			for i := range bl {
+				n := len(bl[i])
+				w := make([]byte, n)
+				var wq []int
+				for k := 0; k < n; k++ {
+					w[k] = sm.Complement(c.Alpha, bl[i][n-1-k])
+					if bq[i] != nil {
+						wq = append(wq, bq[i][n-1-k])
+					}
+				}
+				if al[i] != string(w) || fmt.Sprint(aq[i]) != fmt.Sprint(wq) {
+					return vlib.Failf("view-revcomp-letters", "%s: op %d: row %d reads %q %v after RevComp, want %q %v", desc, oi, i, al[i], aq[i], string(w), wq)
+				}
+			}
+		}
+		apply()
+		// twice: letters, qualities and coordinates are back
+		for i, sp := range spans() {
+			if sp != before[i] {
+				return vlib.Failf("view-twice-coordinates", "%s: op %d: row %d covers [%d,%d) after %s twice, it covered [%d,%d)", desc, oi, i, sp.s, sp.e, o, before[i].s, before[i].e)
+			}
+		}
+		al, aq := letters()
+		for i := range bl {
+			if al[i] != bl[i] || fmt.Sprint(aq[i]) != fmt.Sprint(bq[i]) {
+				return vlib.Failf("view-twice-letters", "%s: op %d: row %d reads %q %v after %s twice, it read %q %v", desc, oi, i, al[i], aq[i], o, bl[i], bq[i])
+			}
+		}
+		apply() // net effect: applied once
+	}
+	return nil
+}
+
+func TestViews(t *testing.T) {
+	vlib.Run(t, vlib.Prop[viewCase]{Name: "multi-over-rows-of-an-offset-alignment", Checks: 1500, Thorough: 60000,
+		Gen: func(t *rapid.T) viewCase {
+			c := viewCase{Alpha: rapid.SampledFrom(compAlphas).Draw(t, "alpha"), Quality: rapid.Bool().Draw(t, "quality"), Cols: rapid.IntRange(1, 8).Draw(t, "cols"),
+				AOffset: rapid.IntRange(-5, 9).Draw(t, "a-offset")}
+			pool := sm.PairedLetters(c.Alpha)
+			genRow := func(n int, label string) sm.Row {
+				b := make([]byte, n)
+				r := sm.Row{Offset: rapid.IntRange(-4, 12).Draw(t, label+"-offset")}
+				for k := range b {
+					b[k] = pool[rapid.IntRange(0, len(pool)-1).Draw(t, label+"-l")]
+					r.Q = append(r.Q, rapid.IntRange(0, 60).Draw(t, label+"-q"))
+				}
+				r.L = string(b)
+				return r
+			}
+			for i, n := 0, rapid.IntRange(1, 4).Draw(t, "rows"); i < n; i++ {
+				c.Rows = append(c.Rows, genRow(c.Cols, "row"))
+			}
+			if rapid.IntRange(0, 2).Draw(t, "same-offsets") == 0 {
+				// the rows' own offsets equal the alignment's
+				for i := range c.Rows {
+					c.Rows[i].Offset = c.AOffset
+				}
+			}
+			for i, n := 0, rapid.IntRange(0, 2).Draw(t, "linear-rows"); i < n; i++ {
+				c.Linear = append(c.Linear, genRow(rapid.IntRange(0, 10).Draw(t, "linear-len"), "lin"))
+			}
+			for i, n := 0, rapid.IntRange(1, 3).Draw(t, "nops"); i < n; i++ {
+				c.Ops = append(c.Ops, rapid.SampledFrom([]string{"revcomp", "revcomp", "reverse"}).Draw(t, "op"))
+			}
+			return c
+		},
+		Check: checkViews,
+		Classes: func(c viewCase) []string {
+			var l []string
+			if c.AOffset != 0 {
+				l = append(l, "alignment-offset-non-zero")
+			}
+			ragged := false
+			for _, r := range c.Rows {
+				if r.Offset != c.Rows[0].Offset {
+					ragged = true
+				}
+			}
+			if ragged || len(c.Linear) > 0 {
+				l = append(l, "rows-with-different-offsets")
+			}
+			if c.Cols >= 2 && (ragged || len(c.Linear) > 0) {
+				l = append(l, vlib.NT)
+			}
+			return l
+		}})
 }
